@@ -1,0 +1,62 @@
+//go:build verif
+
+// Contracts for package render, checked by /verif/govc. Comment-only file: with the
+// build tag off it does not exist for the compiler.
+
+package render
+
+//@ uses colors
+
+//@ let Inv (and (bvult z.cSel #x40) (bvult z.nSel #x40))
+//@ let cIdx ((_ zero_extend 56) (bvand (bvsub (old z.cSel) adj) #x3f))
+//@ let nIdx ((_ zero_extend 56) (bvand (bvsub (old z.nSel) adj) #x3f))
+
+// ---- the register machine (C04, C07)
+
+//@ contract (*Renderer).CSel
+//@   requires Inv
+//@   ensures [C07.ren.csel.read C04.vm.csel] (= result z.cSel)
+//@ contract (*Renderer).NSel
+//@   requires Inv
+//@   ensures [C07.ren.nsel.read C04.vm.nsel] (= result z.nSel)
+//@ contract (*Renderer).SetCSel
+//@   requires Inv
+//@   ensures [inv] Inv
+//@   modifies z.cSel
+//@   ensures [C07.ren.setcsel C04.vm.setcsel] (= z.cSel (bvand cSel #x3f))
+//@ contract (*Renderer).SetNSel
+//@   requires Inv
+//@   ensures [inv] Inv
+//@   modifies z.nSel
+//@   ensures [C07.ren.setnsel C04.vm.setnsel] (= z.nSel (bvand nSel #x3f))
+//@ contract (*Renderer).SetCReg
+//@   requires Inv
+//@   ensures [inv C04.inv.sel6 C19.inv.sel6] Inv
+//@   modifies z.cReg z.cSel
+//@   ensures [C04.vm.setcreg] (= z.cReg (store (old z.cReg) cIdx (spec.resolve c (old z.palette) (old z.cReg))))
+//@   ensures [C07.ren.setcreg.sel C04.vm.setcreg.sel] (= z.cSel (ite incr (bvand (bvadd (old z.cSel) #x01) #x3f) (old z.cSel)))
+//@ contract (*Renderer).SetNReg
+//@   requires Inv
+//@   ensures [inv C04.inv.sel6 C19.inv.sel6] Inv
+//@   modifies z.nReg z.nSel
+//@   ensures [C04.vm.setnreg] (= z.nReg (store (old z.nReg) nIdx f))
+//@   ensures [C07.ren.setnreg.sel C04.vm.setnreg.sel] (= z.nSel (ite incr (bvand (bvadd (old z.nSel) #x01) #x3f) (old z.nSel)))
+//@ contract (*Renderer).SetLOD
+//@   requires Inv
+//@   ensures [inv] Inv
+//@   modifies z.lod0 z.lod1
+//@   ensures [C04.vm.setlod] (and (= z.lod0 lod0) (= z.lod1 lod1))
+
+//@ contract (*Renderer).recalcTransform
+//@   modifies z.scaleX z.biasX z.scaleY z.biasY
+//@   ensures [C17.ren.transform] (and (= z.biasX (fp.neg z.viewBox.MinX)) (= z.biasY (fp.neg z.viewBox.MinY)))
+//@   ensures [C17.ren.transform] (= z.scaleX (fp.div RNE ((_ to_fp 8 24) RNE (bvsub z.r.Max.X z.r.Min.X)) (fp.sub RNE z.viewBox.MaxX z.viewBox.MinX)))
+//@   ensures [C17.ren.transform] (= z.scaleY (fp.div RNE ((_ to_fp 8 24) RNE (bvsub z.r.Max.Y z.r.Min.Y)) (fp.sub RNE z.viewBox.MaxY z.viewBox.MinY)))
+
+//@ contract (*Renderer).Reset
+//@   ensures [inv] Inv
+//@   modifies z.viewBox z.palette z.lod0 z.lod1 z.cSel z.nSel z.prevSmoothType z.prevSmoothPointX z.prevSmoothPointY z.cReg z.nReg z.scaleX z.biasX z.scaleY z.biasY
+//@   ensures [C04.vm.reset C14.reset.seeds C17.ren.reset] (and (= z.viewBox viewbox) (= z.palette palette) (= z.cReg palette) (= z.cSel #x00) (= z.nSel #x00) (= z.lod0 (_ +zero 8 24)) (= z.lod1 (_ +oo 8 24)))
+//@   ensures [C04.vm.reset.nreg C17.ren.reset] (= z.nReg ((as const (Array (_ BitVec 64) (_ FloatingPoint 8 24))) (_ +zero 8 24)))
+//@   ensures [C17.ren.reset.smooth C05.reset.smooth] (and (= z.prevSmoothType #x00) (= z.prevSmoothPointX (_ +zero 8 24)) (= z.prevSmoothPointY (_ +zero 8 24)))
+//@   ensures [C17.ren.transform] (and (= z.biasX (fp.neg viewbox.MinX)) (= z.biasY (fp.neg viewbox.MinY)) (= z.scaleX (fp.div RNE ((_ to_fp 8 24) RNE (bvsub z.r.Max.X z.r.Min.X)) (fp.sub RNE viewbox.MaxX viewbox.MinX))) (= z.scaleY (fp.div RNE ((_ to_fp 8 24) RNE (bvsub z.r.Max.Y z.r.Min.Y)) (fp.sub RNE viewbox.MaxY viewbox.MinY))))
